@@ -60,9 +60,9 @@ impl PyGenerator {
     }
 
     fn set_opcode_range(&mut self, min: usize, max: usize) {
-        let version = self.inner.state.version;
-        let new_gen = Generator::new(version).with_opcode_range(min, max);
-        self.inner = new_gen;
+        // only the two knobs change; seed, protocol and every other setting stay in force
+        self.inner.min_opcodes = min;
+        self.inner.max_opcodes = max;
     }
 
     fn reset(&mut self) {
